@@ -790,7 +790,7 @@ fn add_interval_to_summary(overlap: &mut VList, summary: &mut Option<Summary>, i
                         summary.bases_covered = summary.bases_covered + (u64::from(len));
                         summary.min_val = summary.min_val.min(val);
                         summary.max_val = summary.max_val.max(val);
-                        summary.sum = summary.sum + (val * val);
+                        summary.sum = summary.sum + (f64::from(len) * val);
                         summary.sum_squares = summary.sum_squares + (f64::from(len) * val * val);
                     }
                 }
